@@ -801,14 +801,15 @@ theorem probe_good {m : M} (a : Nat) (hg : Good m) :
 theorem observe_good {m : M} (seen : List Nat) (res : String) (mid str : Option String) (hg : Good m) :
     (observe seen m res mid str).2.2 =
       { res := res, fd1 := m.fds 1, fd2 := m.fds 2, sk1 := (rename seen m 1).2, sk2 := (rename (rename seen m 1).1 m 2).2,
-        p1 := answerOf m 1, p2 := answerOf m 2, mid := mid, str := str } ∧
+        p1 := answerOf m 1, p2 := answerOf m 2, ni := 1, mid := mid, str := str } ∧
     (observe seen m res mid str).2.1 = (rename (rename seen m 1).1 m 2).1 ∧
     Good (observe seen m res mid str).1 ∧ ProbeFrame m (observe seen m res mid str).1 := by
   obtain ⟨a1, g1, f1⟩ := probe_good 1 hg
   obtain ⟨a2, g2, f2⟩ := probe_good 2 g1
   have hans : answerOf (probe m 1).1 2 = answerOf m 2 := by simp [answerOf, f1.cur]
   refine ⟨?_, rfl, g2, probeFrame_trans f1 f2⟩
-  simp only [observe, a1, a2, hans]
+  have hni : instCount m = 1 := by simp [instCount, hg.idle]
+  simp only [observe, a1, a2, hans, hni]
 
 open Casket.ReloadSpec
 
@@ -889,6 +890,7 @@ def inflightOK (led : HLedger) (op : HOp) (isValid : Bool) (g : Nat) (mid str : 
   | .reload _ => mid = none ∧ str = none
   | .straddle c => str = some (if led.addrs.contains 1 then toString led.gen else "-") ∧
       mid = some (if isValid then (if c.addrs.contains 1 then toString g else "-") else led.prev.p1)
+  | .longflight _ => str = some (if led.addrs.contains 1 then toString led.gen else "-") ∧ mid = none
 
 /-- the observation after an operation whose configuration is NOT valid for the environment, made in a settled state
 that kept the current instance: it satisfies the judge, and the ledger stays in step -/
@@ -920,7 +922,7 @@ theorem judge_invalid {busy : List Nat} {m m1 : M} {seen : List Nat} {g : Nat} {
   have ha2 : answerOf m1 2 = answerOf m 2 := by simp [answerOf, hcur]
   have hobs : (observe seen m1 "err" mid str).2.2 =
       { res := "err", fd1 := m.fds 1, fd2 := m.fds 2, sk1 := led.prev.sk1, sk2 := led.prev.sk2,
-        p1 := answerOf m 1, p2 := answerOf m 2, mid := mid, str := str } := by
+        p1 := answerOf m 1, p2 := answerOf m 2, ni := 1, mid := mid, str := str } := by
     simp only [o1, hfd, e1, e2, ha1, ha2]
   have hseen : (observe seen m1 "err" mid str).2.1 = seen := by
     simp only [o2, e1, e2]
@@ -935,8 +937,12 @@ theorem judge_invalid {busy : List Nat} {m m1 : M} {seen : List Nat} {g : Nat} {
       obtain ⟨rfl, rfl⟩ := hin
       simp only [HOp.cfg] at hv
       simp [stepLaw, HOp.cfg, hv, h.fd1, h.fd2, h.p1, h.p2]
-  · have hadv : advance busy led op { res := "err", fd1 := m.fds 1, fd2 := m.fds 2, sk1 := led.prev.sk1, sk2 := led.prev.sk2, p1 := answerOf m 1, p2 := answerOf m 2, mid := mid, str := str }
-        = { led with prev := { res := "err", fd1 := m.fds 1, fd2 := m.fds 2, sk1 := led.prev.sk1, sk2 := led.prev.sk2, p1 := answerOf m 1, p2 := answerOf m 2, mid := mid, str := str }, next := led.next + 1 } := by
+    | longflight c =>
+      obtain ⟨rfl, rfl⟩ := hin
+      simp only [HOp.cfg] at hv
+      simp [stepLaw, HOp.cfg, hv, h.fd1, h.fd2, h.p1, h.p2]
+  · have hadv : advance busy led op { res := "err", fd1 := m.fds 1, fd2 := m.fds 2, sk1 := led.prev.sk1, sk2 := led.prev.sk2, p1 := answerOf m 1, p2 := answerOf m 2, ni := 1, mid := mid, str := str }
+        = { led with prev := { res := "err", fd1 := m.fds 1, fd2 := m.fds 2, sk1 := led.prev.sk1, sk2 := led.prev.sk2, p1 := answerOf m 1, p2 := answerOf m 2, ni := 1, mid := mid, str := str }, next := led.next + 1 } := by
       simp [advance, hv]
     rw [hadv]
     refine ⟨o3, by rw [o4.busy, hbusy]; exact h.busyEq, by rw [o4.cur, hcur]; exact h.gen,
@@ -979,8 +985,13 @@ theorem judge_valid {busy : List Nat} {m m1 : M} {seen : List Nat} {g : Nat} {le
       simp only [HOp.cfg] at hv law1 law2
       simp only [stepLaw, HOp.cfg, hv, h.next, law1, law2, h.gen, h.addrs]
       simp
-  · have hadv : advance busy led op { res := "ok", fd1 := m1.fds 1, fd2 := m1.fds 2, sk1 := (rename seen m1 1).2, sk2 := (rename (rename seen m1 1).1 m1 2).2, p1 := answerOf m1 1, p2 := answerOf m1 2, mid := mid, str := str }
-        = { gen := led.next, addrs := op.cfg.addrs, prev := { res := "ok", fd1 := m1.fds 1, fd2 := m1.fds 2, sk1 := (rename seen m1 1).2, sk2 := (rename (rename seen m1 1).1 m1 2).2, p1 := answerOf m1 1, p2 := answerOf m1 2, mid := mid, str := str }, next := led.next + 1 } := by
+    | longflight c =>
+      obtain ⟨rfl, rfl⟩ := hin
+      simp only [HOp.cfg] at hv law1 law2
+      simp only [stepLaw, HOp.cfg, hv, h.next, law1, law2, h.gen, h.addrs]
+      simp
+  · have hadv : advance busy led op { res := "ok", fd1 := m1.fds 1, fd2 := m1.fds 2, sk1 := (rename seen m1 1).2, sk2 := (rename (rename seen m1 1).1 m1 2).2, p1 := answerOf m1 1, p2 := answerOf m1 2, ni := 1, mid := mid, str := str }
+        = { gen := led.next, addrs := op.cfg.addrs, prev := { res := "ok", fd1 := m1.fds 1, fd2 := m1.fds 2, sk1 := (rename seen m1 1).2, sk2 := (rename (rename seen m1 1).1 m1 2).2, p1 := answerOf m1 1, p2 := answerOf m1 2, ni := 1, mid := mid, str := str }, next := led.next + 1 } := by
       simp [advance, hv]
     rw [hadv]
     have n1' : NamedIn (rename (rename seen m1 1).1 m1 2).1 m1 1 (rename seen m1 1).2 := by
@@ -1561,6 +1572,122 @@ theorem straddle_valid {busy : List Nat} {m : M} {seen : List Nat} {g : Nat} {le
     simpa only [runOp, e0, hnc, hmd, eq1, if_true, r3, hstr] using And.intro r1 r2
 
 
+/-- the first half of a request in flight, from a settled state: the result is settled and differs in connections only -/
+theorem inflight_begin {m : M} (hg : Good m) :
+    ∃ m0, run m [.connect 1, .accept m.cur.gen 1] = m0 ∧ Good m0 ∧ m0.cur = m.cur ∧ m0.busy = m.busy ∧
+      m0.sock = m.sock ∧ m0.nextSock = m.nextSock ∧
+      ((m.cur.holds 1 = false ∧ m0.conns = m.conns ∧ m0.nextConn = m.nextConn) ∨
+       (m.cur.holds 1 = true ∧ m0.nextConn = m.nextConn + 1 ∧
+        m0.conns = m.conns ++ [{ id := m.nextConn, addr := 1, minGen := m.cur.gen, owner := some m.cur.gen, answered := none }])) := by
+  cases h1 : m.cur.holds 1
+  · refine ⟨_, straddle_begin_free hg h1, ?_, rfl, rfl, rfl, rfl, Or.inl ⟨rfl, rfl, rfl⟩⟩
+    have hinv : Inv (run m [.connect 1, .accept m.cur.gen 1]) := inv_run _ hg.inv
+    rw [straddle_begin_free hg h1] at hinv
+    exact good_frame hg hinv rfl rfl rfl hg.queue hg.connIds
+  · refine ⟨_, straddle_begin_held hg h1, ?_, rfl, rfl, rfl, rfl, Or.inr ⟨rfl, rfl, rfl⟩⟩
+    have hinv : Inv (run m [.connect 1, .accept m.cur.gen 1]) := inv_run _ hg.inv
+    rw [straddle_begin_held hg h1] at hinv
+    refine good_frame hg hinv rfl rfl rfl (fun x => ?_) (fun x hx => ?_)
+    · show upd (upd m.queue 1 [m.nextConn]) 1 [] x = []
+      simp only [upd_app]; split <;> simp [hg.queue]
+    · show x.id < m.nextConn + 1
+      rcases List.mem_append.mp hx with hx | hx
+      · have := hg.connIds x hx; omega
+      · simp only [List.mem_singleton] at hx; subst hx; exact Nat.lt_succ_self _
+
+/-- a reload while a request stays in flight beyond the graceful period: `Restart` returns (every server of the old instance
+was stopped although one drain timed out), the request completes afterwards -/
+theorem longflight_ok {busy : List Nat} {m : M} {seen : List Nat} {g : Nat} {led : HLedger} (h : HRel busy m seen g led)
+    (c : Cfg) :
+    stepLaw busy led (.longflight c) (runOp g seen m (.longflight c)).2.2 = none ∧
+    HRel busy (runOp g seen m (.longflight c)).1 (runOp g seen m (.longflight c)).2.1 (g + 1)
+      (advance busy led (.longflight c) (runOp g seen m (.longflight c)).2.2) := by
+  have hg := h.good
+  have hlc := led_contains_one h
+  obtain ⟨m0, e0, g0, hcur0, hbusy0, hsock0, hns0, hconn⟩ := inflight_begin hg
+  have hlt0 : m0.cur.gen < g := by rw [hcur0]; exact h.lt
+  generalize hm1 : run m0 (reloadHead g m0 c ++ [.finish]) = m1
+  have hsr : SockRel m0 m1 := by rw [← hm1]; exact sockRel_run _ m0
+  have hsl : ∀ a, a = 1 ∨ a = 2 → m1.sock a < m1.nextSock := by
+    intro a ha; rw [← hm1]; exact sockLt_run _ a (by rw [hsock0, hns0]; exact h.sockLt a ha)
+  -- the state in which the observation is made: m1, or m1 after the request in flight was answered
+  have after : ∀ (m2 : M) (str : String), (m2 = m1 ∧ m.cur.holds 1 = false ∧ str = "-" ∨
+        m2 = step m1 (.respond m.nextConn) ∧ m.cur.holds 1 = true ∧ str = toString m.cur.gen) →
+      Good m1 → Good m2 ∧ ProbeFrame m1 m2 ∧ str = (if led.addrs.contains 1 then toString led.gen else "-") := by
+    intro m2 str hc g1
+    rcases hc with ⟨rfl, h1, rfl⟩ | ⟨rfl, h1, rfl⟩
+    · exact ⟨g1, ⟨rfl, rfl, rfl, rfl, rfl⟩, by rw [hlc, h1]; rfl⟩
+    · obtain ⟨rg, rf⟩ := good_respond g1 m.nextConn
+      exact ⟨rg, rf, by rw [hlc, h1, h.gen]; rfl⟩
+  have hanswer : ∀ (hc : m1.conns = m0.conns), m.cur.holds 1 = true →
+      m0.conns = m.conns ++ [{ id := m.nextConn, addr := 1, minGen := m.cur.gen, owner := some m.cur.gen, answered := none }] →
+      connAnswer (step m1 (.respond m.nextConn)) m.conns.length = toString m.cur.gen := by
+    intro hc _ hc0
+    apply connAnswer_of
+    show ((setAnswered m1.conns m.nextConn)[m.conns.length]?).map (·.answered) = _
+    rw [hc, hc0]
+    exact straddler_answer m.conns [] _ m.nextConn m.cur.gen rfl rfl
+  cases hv : valid busy c
+  · obtain ⟨g1, hcur1, hbusy1, hconns1, _, hsock1⟩ := reload_invalid (g := g) (c := c) g0 hlt0 (by rw [hbusy0, h.busyEq]; exact hv)
+    rw [hm1] at g1 hcur1 hbusy1 hconns1 hsock1
+    have hres : ∀ m2 : M, m2.cur = m.cur → resOf m2 g = "err" := by
+      intro m2 hc
+      have : ¬ m2.cur.gen = g := by rw [hc]; have := h.lt; omega
+      simp [resOf, this]
+    have fin : ∀ (m2 : M) (str : String), Good m2 → ProbeFrame m1 m2 →
+        str = (if led.addrs.contains 1 then toString led.gen else "-") →
+        stepLaw busy led (.longflight c) (observe seen m2 "err" none (some str)).2.2 = none ∧
+        HRel busy (observe seen m2 "err" none (some str)).1 (observe seen m2 "err" none (some str)).2.1 (g + 1)
+          (advance busy led (.longflight c) (observe seen m2 "err" none (some str)).2.2) := by
+      intro m2 str g2 f2 hstr
+      exact judge_invalid h (.longflight c) hv g2 (by rw [f2.cur, hcur1, hcur0]) (by rw [f2.busy, hbusy1, hbusy0])
+        (fun a ha => by rw [f2.sock, hsock1 a (by rw [hcur0]; exact ha), hsock0])
+        (fun a ha => by rw [f2.sock, f2.nextSock]; exact hsl a ha)
+        (by rw [f2.nextSock, ← hns0]; exact hsr.next) none (some str) ⟨by rw [hstr], rfl⟩
+    rcases hconn with ⟨h1, hc0, _⟩ | ⟨h1, _, hc0⟩
+    · have hnc : (m0.conns.length != m.conns.length) = false := by rw [hc0]; simp
+      obtain ⟨a1, a2, a3⟩ := after m1 "-" (Or.inl ⟨rfl, h1, rfl⟩) g1
+      have := fin m1 "-" a1 a2 a3
+      have hr := hres m1 (by rw [hcur1, hcur0])
+      simpa only [runOp, e0, hnc, hm1, Bool.false_eq_true, if_false, hr] using this
+    · have hnc : (m0.conns.length != m.conns.length) = true := by rw [hc0]; simp
+      obtain ⟨a1, a2, a3⟩ := after (step m1 (.respond m.nextConn)) (toString m.cur.gen) (Or.inr ⟨rfl, h1, rfl⟩) g1
+      have := fin _ _ a1 a2 a3
+      have hr := hres (step m1 (.respond m.nextConn)) (by rw [a2.cur, hcur1, hcur0])
+      have hstr := hanswer hconns1 h1 hc0
+      simpa only [runOp, e0, hnc, hm1, if_true, hr, hstr] using this
+  · obtain ⟨g1, hgen1, haddrs1, hbusy1, hconns1, _⟩ := reload_valid (g := g) (c := c) g0 hlt0 (by rw [hbusy0, h.busyEq]; exact hv)
+    have hks : ∀ a, a ∈ c.addrs → m.cur.holds a = true → m1.sock a = m.sock a := by
+      intro a hac hah
+      rw [← hm1, ← hsock0]
+      exact keeps_sock_run _ g0.inv (by simp [Keeps, g0.idle, hcur0, hah]) (keepsAct_reload hac)
+    rw [hm1] at g1 hgen1 haddrs1 hbusy1 hconns1
+    have fin : ∀ (m2 : M) (str : String), Good m2 → ProbeFrame m1 m2 →
+        str = (if led.addrs.contains 1 then toString led.gen else "-") →
+        stepLaw busy led (.longflight c) (observe seen m2 "ok" none (some str)).2.2 = none ∧
+        HRel busy (observe seen m2 "ok" none (some str)).1 (observe seen m2 "ok" none (some str)).2.1 (g + 1)
+          (advance busy led (.longflight c) (observe seen m2 "ok" none (some str)).2.2) := by
+      intro m2 str g2 f2 hstr
+      exact judge_valid h (.longflight c) hv g2 (by rw [f2.cur, hgen1]) (by rw [f2.cur, haddrs1]; rfl)
+        (by rw [f2.busy, hbusy1, hbusy0])
+        (fun a hac hah => by rw [f2.sock]; exact hks a hac hah)
+        (fun a ha => by rw [f2.sock, f2.nextSock]; exact hsl a ha)
+        (by rw [f2.nextSock, ← hns0]; exact hsr.next) none (some str) ⟨by rw [hstr], rfl⟩
+    have hres : ∀ m2 : M, m2.cur = m1.cur → resOf m2 g = "ok" := by
+      intro m2 hc; simp [resOf, hc, hgen1]
+    rcases hconn with ⟨h1, hc0, _⟩ | ⟨h1, _, hc0⟩
+    · have hnc : (m0.conns.length != m.conns.length) = false := by rw [hc0]; simp
+      obtain ⟨a1, a2, a3⟩ := after m1 "-" (Or.inl ⟨rfl, h1, rfl⟩) g1
+      have := fin m1 "-" a1 a2 a3
+      have hr := hres m1 rfl
+      simpa only [runOp, e0, hnc, hm1, Bool.false_eq_true, if_false, hr] using this
+    · have hnc : (m0.conns.length != m.conns.length) = true := by rw [hc0]; simp
+      obtain ⟨a1, a2, a3⟩ := after (step m1 (.respond m.nextConn)) (toString m.cur.gen) (Or.inr ⟨rfl, h1, rfl⟩) g1
+      have := fin _ _ a1 a2 a3
+      have hr := hres (step m1 (.respond m.nextConn)) a2.cur
+      have hstr := hanswer hconns1 h1 hc0
+      simpa only [runOp, e0, hnc, hm1, if_true, hr, hstr] using this
+
 /-- one operation of the hand-over stream, plain or with a request in flight -/
 theorem op_ok {busy : List Nat} {m : M} {seen : List Nat} {g : Nat} {led : HLedger} (h : HRel busy m seen g led) (op : HOp) :
     stepLaw busy led op (runOp g seen m op).2.2 = none ∧
@@ -1571,6 +1698,7 @@ theorem op_ok {busy : List Nat} {m : M} {seen : List Nat} {g : Nat} {led : HLedg
     cases hv : valid busy c
     · exact straddle_invalid h c hv
     · exact straddle_valid h c hv
+  | longflight c => exact longflight_ok h c
 
 theorem runOps_check {busy : List Nat} : ∀ (hops : List HOp) (m : M) (seen : List Nat) (g : Nat) (led : HLedger),
     HRel busy m seen g led → checkFrom busy led hops (runOps g seen m hops) = none := by
